@@ -165,20 +165,34 @@ def r3(ctx: Ctx, m: pf.Module) -> None:
     is_jobs = any(st.kind == 'insert' and st.table.lower() == 'jobs' for st in first.stmts())
     ctx.check(is_jobs and all(e.receiver == 'tx' for e in writes), 'R3', cons + '::jobs insert first', 'INSERT INTO jobs is not the first write of the bunch transaction: a replayed bunch would '
               f'repeat `{text(first.stmts()[0])[:60]}` before the duplicate is noticed', m.path, first.lineno)
-    # the 1062 handler around it returns
+    # the duplicate-key branch of the handler around it leaves the transaction function before any later statement
+    from engines import c08ids as ids
     par = m.parents()
     tr = par.get(first.call)
-    while tr is not None and not isinstance(tr, ast.Try):
+    while tr is not None and not (isinstance(tr, ast.Try) and any(first.call is x for b_ in tr.body for x in ast.walk(b_))):
         tr = par.get(tr)
-    ok = False
+        if tr is fn:
+            tr = None
+    ok = None
+    why = 'INSERT INTO jobs is not inside a try: a replayed bunch fails with the duplicate-key error instead of being recognised'
     if isinstance(tr, ast.Try):
-        for h in tr.handlers:
-            if h.type is not None and 'IntegrityError' in pf.nsrc(h.type):
-                for s in ast.walk(h):
-                    if isinstance(s, ast.If) and '1062' in pf.nsrc(s.test) and any(isinstance(x, ast.Return) for x in s.body):
-                        ok = True
-    ctx.check(ok, 'R3', cons + '::duplicate returns', 'a duplicate-key error on INSERT INTO jobs does not return from the transaction function: the staging / cancellable counters of an '
-              'already inserted bunch would be added again', m.path, first.lineno)
+        hs = [h for h in tr.handlers if h.type is None or any(k in pf.nsrc(h.type) for k in ('IntegrityError', 'MySQLError', 'Exception', 'DatabaseError'))]
+        if hs:
+            br = ids.error_code_branch(m, hs[0], 1062)
+            ctx.need(br is not None, f'{cons}: the handler around INSERT INTO jobs does not test err.args[0] against 1062 (ER_DUP_ENTRY) in a recognised way')
+            wr = [pf.nsrc(x)[:40] for s_ in br for x in ast.walk(s_) if isinstance(x, ast.Call) and isinstance(x.func, ast.Attribute) and x.func.attr.startswith(('execute', 'just_execute'))]
+            if br and isinstance(br[-1], (ast.Return, ast.Raise)) and not wr:
+                ok, why = True, f'ER_DUP_ENTRY branch ends in `{pf.nsrc(br[-1])[:40]}`'
+            elif not any(isinstance(x, (ast.Return, ast.Raise)) for s_ in br for x in ast.walk(s_)) or wr:
+                ok, why = False, 'the ER_DUP_ENTRY branch of the handler ' + (f'writes ({wr[0]})' if wr else 'neither returns nor raises: execution goes on to the statements after the try')
+            else:
+                raise AnalysisError(f'{cons}: the ER_DUP_ENTRY branch returns only on some paths')
+        else:
+            ok, why = True, 'no handler catches the IntegrityError: it propagates and the transaction is rolled back'
+    else:
+        ok, why = True, 'not inside a try: the IntegrityError propagates and the transaction is rolled back'
+    ctx.check(bool(ok), 'R3', cons + '::duplicate returns', f'a duplicate-key error on INSERT INTO jobs does not leave the transaction function ({why}): the staging / cancellable counters of an '
+              'already inserted bunch would be added again', m.path, first.lineno, detail=why)
     counters = [e for e in writes if any(st.kind == 'insert' and st.table.lower() in ('job_groups_inst_coll_staging', 'job_group_inst_coll_cancellable_resources') for st in e.stmts())]
     ctx.check(len(counters) == 2 and all(c.lineno > first.lineno for c in counters), 'R3', cons + '::counters after jobs', 'counter-bearing inserts do not all come after INSERT INTO jobs', m.path, fn.lineno)
     outer = m.func('_create_jobs')
@@ -204,7 +218,7 @@ def r4(ctx: Ctx) -> None:
     i, st, var = flag
     starts = [j for j, x in enumerate(flat) if x.kind == 'txn' and x.what == 'START TRANSACTION']
     locked = st.lock == 'FOR UPDATE' and bool(starts) and starts[0] < i
-    ctx.check(locked, 'R4', f'{r.file}::commit_batch_update::committed flag read under lock', f'the already-committed decision is taken from a read that is not `FOR UPDATE` inside the transaction '
+    ctx.check(locked, 'R4', f'sql::commit_batch_update::committed flag read under lock', f'the already-committed decision is taken from a read that is not `FOR UPDATE` inside the transaction '
               f'(lock `{st.lock or "none"}`, {"before" if not starts or starts[0] > i else "after"} START TRANSACTION): two overlapping commit requests both see committed = 0 and both add the '
               'staged counts', r.file, r.line_of(st))
     n = 0
@@ -213,74 +227,190 @@ def r4(ctx: Ctx) -> None:
         g = [(text(c).lower(), p) for c, p in guard]
         if (var, True) in g:
             n += 1
-            ctx.check(not sf.written_tables(x) and x.kind != 'call', 'R4', f'{r.file}::commit_batch_update::already committed::{x.kind}', 'the already-committed branch writes: a repeated commit is not a no-op',
+            ctx.check(not sf.written_tables(x) and x.kind != 'call', 'R4', f'sql::commit_batch_update::already committed::{x.kind}', 'the already-committed branch writes: a repeated commit is not a no-op',
                       r.file, r.line_of(x))
         elif sf.written_tables(x) and (var, False) not in g:
             writes_unguarded.append(x)
     ctx.need(n >= 1, 'commit_batch_update: already-committed branch not found')
-    ctx.check(not writes_unguarded, 'R4', f'{r.file}::commit_batch_update::writes only when not committed', f'{len(writes_unguarded)} write(s) happen regardless of the committed flag', r.file, r.line)
+    ctx.check(not writes_unguarded, 'R4', f'sql::commit_batch_update::writes only when not committed', f'{len(writes_unguarded)} write(s) happen regardless of the committed flag', r.file, r.line)
+
+
+def _accepting_only(g: pf.CFG, t, accept: str, targets) -> bool:
+    """every path from the entry to one of the target nodes leaves test t through its `accept` edge."""
+    return all(g.path_avoiding(g.entry, lambda n, w=w: n is w, lambda n: False, edge_ok=lambda a, b, lab: not (a is t and lab == accept)) is None for w in targets)
 
 
 def r5(ctx: Ctx, m: pf.Module) -> None:
     fn = m.func('_create_job_groups.insert')
+    outer = m.func('_create_job_groups')
     g = pf.cfg(fn)
-    tests = g.find(lambda n: n.kind == 'test' and 'next_job_group_id' in pf.nsrc(n.ast))
-    ok = len(tests) == 1
-    if ok:
-        t = tests[0]
-        c = t.ast
-        ok = isinstance(c, ast.Compare)
-        # compare in linear form: next - (last + 1) == 0 is the accepting case
-        l = lf.lin(c.left) - lf.lin(c.comparators[0])
-        ok = isinstance(c.ops[0], ast.NotEq) and (l == lf.Lin({'next_job_group_id': 1, "last_inserted_job_group_id['job_group_id']": -1}, -1) or (-l) == lf.Lin({'next_job_group_id': 1, "last_inserted_job_group_id['job_group_id']": -1}, -1))
-        ok = ok and any(s.kind == 'raise' and 'HTTPBadRequest' in pf.nsrc(s.ast) for s, lab in t.succ if lab == 'T')
-        creates = g.find(lambda n: any(pf.dotted(cc.func) == '_create_job_group' for cc in pf.node_calls(n)))
-        ok = ok and bool(creates) and all(g.path_avoiding(g.entry, lambda n, w=w: n is w, lambda n: False, edge_ok=lambda a, b, lab: not (a is t and lab == 'F')) is None for w in creates)
-    ctx.check(ok, 'R5', f'{FE}::_create_job_groups.insert::in order', 'job groups can be inserted although the bunch does not start at last inserted id + 1 (a replayed bunch is not refused)', m.path, fn.lineno)
-    d = pf.assignments(fn).get('next_job_group_id', [])
-    okd = len(d) == 1 and lf.lin(d[0]) == lf.Lin({'start_job_group_id': 1, "job_group_specs[0]['job_group_id']": 1}, -1)
-    ctx.check(okd, 'R5', f'{FE}::_create_job_groups.insert::next id', f'next_job_group_id is `{pf.nsrc(d[0]) if d else None}`, expected start_job_group_id + first relative id - 1', m.path, fn.lineno)
+    cons = f'{FE}::_create_job_groups.insert'
     embs = _embs(m, fn)
+    # the last inserted job group: SELECT .. FROM job_groups .. ORDER BY job_group_id DESC LIMIT 1 FOR UPDATE, on the transaction
     sel = [e for e in embs if any(st.kind == 'select' and sf.table_names(st.frm) == ['job_groups'] and st.order for st in e.stmts())]
-    oks = len(sel) == 1
-    if oks:
-        st = sel[0].stmts()[0]
-        oks = [(text(x).lower(), dd) for x, dd in st.order] == [('job_group_id', 'DESC')] and text(st.limit) == '1' and st.lock == 'FOR UPDATE' and sel[0].receiver == 'tx'
-    ctx.check(oks, 'R5', f'{FE}::_create_job_groups.insert::last inserted read', 'the last inserted job group is not read as ORDER BY job_group_id DESC LIMIT 1 FOR UPDATE in the transaction', m.path, fn.lineno)
+    ctx.need(len(sel) == 1, f'{cons}: read of the last inserted job group not found (selects from job_groups with ORDER BY: {len(sel)})')
+    st = sel[0].stmts()[0]
+    oks = [(text(x).lower().split('.')[-1], dd) for x, dd in st.order] == [('job_group_id', 'DESC')] and text(st.limit) == '1' and st.lock == 'FOR UPDATE' and sel[0].receiver == 'tx'
+    ctx.check(oks, 'R5', cons + '::last inserted read', 'the last inserted job group is not read as ORDER BY job_group_id DESC LIMIT 1 FOR UPDATE in the transaction', m.path, fn.lineno)
+    ln = g.node_of(sel[0].call)
+    ctx.need(len(ln) == 1 and isinstance(ln[0].ast, ast.Assign) and isinstance(ln[0].ast.targets[0], ast.Name), f'{cons}: the last inserted job group is not bound to a name')
+    last_var = ln[0].ast.targets[0].id
+    col = next((al or c.parts[-1] for c, al in st.cols if c.kind == 'col' and c.parts[-1].lower() == 'job_group_id'), None)
+    ctx.need(col is not None, f'{cons}: the read of the last inserted job group does not select job_group_id')
+    creates = g.find(lambda n: any(pf.dotted(cc.func) == '_create_job_group' for cc in pf.node_calls(n)))
+    ctx.need(creates, f'{cons}: calls of _create_job_group not found')
+    # tests that look at the last inserted id
+    specs_params = [a.arg for a in outer.args.args + outer.args.kwonlyargs]
+    verdicts = []
+    for t in g.find(lambda n: n.kind == 'test'):
+        c = t.ast
+        ex = cf.expand_arith(fn, c) if c is not None else None
+        if ex is None or not any(isinstance(x, ast.Subscript) and isinstance(x.value, ast.Name) and x.value.id == last_var and pf.const_str(x.slice) == col for x in ast.walk(ex)):
+            continue
+        ctx.need(isinstance(ex, ast.Compare) and len(ex.ops) == 1, f'{cons}: test `{pf.nsrc(c)[:80]}` on the last inserted job group id not recognised')
+        try:
+            l = lf.lin(ex.left) - lf.lin(ex.comparators[0])
+        except AnalysisError:
+            raise AnalysisError(f'{cons}: test `{pf.nsrc(c)[:80]}` on the last inserted job group id is not linear')
+        leaves = cf.id_leaves(ex)
+        roles = {}
+        for k in l.symbols():
+            n_ = leaves.get(k)
+            if isinstance(n_, ast.Subscript) and isinstance(n_.value, ast.Name) and n_.value.id == last_var:
+                roles[k] = 'last'
+            elif isinstance(n_, ast.Subscript) and pf.const_str(n_.slice) == 'job_group_id' and isinstance(n_.value, ast.Subscript) and isinstance(n_.value.value, ast.Name) \
+                    and n_.value.value.id in specs_params and isinstance(n_.value.slice, ast.Constant) and n_.value.slice.value == 0:
+                roles[k] = 'first'
+            elif n_ is not None and cf.origin(fn, n_) == ('key', 'start_job_group_id'):
+                roles[k] = 'start'
+            else:
+                roles[k] = '?'
+        ctx.need(sorted(roles.values()) == ['first', 'last', 'start'], f'{cons}: test `{pf.nsrc(c)[:80]}` compares the last inserted id with {sorted(l.symbols())}: roles not recognised')
+        by = {v: k for k, v in roles.items()}
+        sgn = l.coef[by['last']]
+        ctx.need(abs(sgn) == 1, f'{cons}: test `{pf.nsrc(c)[:80]}`: coefficient of the last inserted id is {sgn}')
+        d = l.scale(-sgn)                   # d = (...) - last : the test reads  start + first - last + const  OP  0
+        shape_ok = d.coef[by['start']] == 1 and d.coef[by['first']] == 1
+        op = type(ex.ops[0])
+        rejects_T = any(s_.kind == 'raise' and 'HTTPBadRequest' in pf.nsrc(s_.ast) for s_, lab in t.succ if lab == 'T')
+        rejects_F = any(s_.kind == 'raise' and 'HTTPBadRequest' in pf.nsrc(s_.ast) for s_, lab in t.succ if lab == 'F')
+        if op is ast.NotEq and rejects_T:
+            accept = 'F'
+        elif op is ast.Eq and rejects_F:
+            accept = 'T'
+        elif op in (ast.Lt, ast.LtE, ast.Gt, ast.GtE) and (rejects_T or rejects_F):
+            verdicts.append((False, f'the only ordering test `{pf.nsrc(c)}` is an inequality: a bunch that does not start at last inserted id + 1 (e.g. a replayed one, whose groups already exist) is let through', None))
+            continue
+        else:
+            raise AnalysisError(f'{cons}: test `{pf.nsrc(c)[:80]}` on the last inserted job group id: accepting / rejecting sides not recognised')
+        guarded = _accepting_only(g, t, accept, creates)
+        # accepted  <=>  start + first - 1 == last + 1  <=>  start + first - last - 2 == 0
+        if not shape_ok:
+            raise AnalysisError(f'{cons}: test `{pf.nsrc(c)[:80]}`: coefficients {d} not recognised')
+        verdicts.append((d.const == -2 and guarded, (f'the accepted case of `{pf.nsrc(c)}` is  start_job_group_id + first relative id - last inserted id {d.const:+d} == 0, expected - 2 (next id = start + relative - 1 '
+                                                       '= last + 1)' if d.const != -2 else f'_create_job_group is reachable without passing the accepting side of `{pf.nsrc(c)}`'), d))
+    ctx.need(verdicts, f'{cons}: no test compares the id the bunch starts at with the last inserted job group id (`{last_var}[{col!r}]`); a helper that does is not followed')
+    bad = [w for okv, w, _ in verdicts if not okv]
+    ctx.check(not bad, 'R5', cons + '::in order', 'job groups can be inserted although the bunch does not start at last inserted id + 1 (a replayed bunch is not refused): ' + '; '.join(bad), m.path, fn.lineno)
+    ctx.ok('R5', cons + '::next id', [str(d) for _o, _w, d in verdicts if d is not None])
+
+
+def _bound_args(fdef: pf.FuncDef, call: ast.Call) -> Dict[str, ast.expr]:
+    pos = [a.arg for a in fdef.args.posonlyargs + fdef.args.args]
+    out: Dict[str, ast.expr] = dict(zip(pos, [a for a in call.args if not isinstance(a, ast.Starred)]))
+    for k in call.keywords:
+        if k.arg is not None:
+            out[k.arg] = k.value
+    return out
 
 
 def r6(ctx: Ctx, m: pf.Module) -> None:
+    """absolute id = start of the update's range + relative id - 1 on both sides of the wire.  Leaves of the arithmetic are identified by what they ARE (a column of the
+    update row, a field of the spec, the method's parameter, the object's own id attribute), not by the names of locals."""
     cm = pf.load(CL)
     from engines import inline
-    mi, _il = inline.inline_functions(m, '_create_jobs')  # id arithmetic moved into a module-level helper is analysed in place
+    from engines import c08ids as ids
+    mi, _il = inline.inline_functions(ids.slice_module(m, '_create_jobs'), '_create_jobs')  # id arithmetic moved into a module-level helper is analysed in place
 
-    def assign_value(mod: pf.Module, qual: str, target: str) -> ast.expr:
-        fn = mod.func(qual)
-        vals = [n.value for n in pf.walk_shallow(fn) if isinstance(n, ast.Assign) and pf.nsrc(n.targets[0]) == target and not isinstance(n.value, ast.Constant)
-                and 'None' != pf.nsrc(n.value)]
-        vals = [v for v in vals if isinstance(v, ast.BinOp)]
-        if len(vals) != 1:
-            raise AnalysisError(f'{mod.rel}::{qual}: expected one arithmetic definition of {target}, found {len(vals)}')
-        return vals[0]
+    def check(mod: pf.Module, fn: pf.FuncDef, qual: str, role: str, values: List[ast.AST], start, rel, other_start, comp_iters=None) -> None:
+        n = 0
+        for v in values:
+            ex = cf.expand_arith(fn, cf.inline_expr_helpers(mod, v))
+            if not any(isinstance(x, ast.BinOp) for x in ast.walk(ex)):
+                continue                   # an id taken as it is (absolute ids)
+            try:
+                got = lf.lin(ex)
+            except AnalysisError as e:
+                raise AnalysisError(f'{mod.rel}::{qual}::{role}: `{pf.nsrc(v)}` is not linear ({e})')
+            leaves = cf.id_leaves(ex)
+            roles = {k: cf.origin(fn, leaves[k], comp_iters) if k in leaves else ('other', k) for k in got.symbols()}
+            n += 1
+            cons = f'{mod.rel}::{qual}::{role}'
+            wrong = [k for k, o in roles.items() if o == other_start]
+            if wrong:
+                ctx.bad('R6', cons, f'`{pf.nsrc(v)}` (= {got}) adds the start of the OTHER id range ({wrong[0]}): job ids and job-group ids are numbered from different starts', mod.path, getattr(v, 'lineno', fn.lineno))
+                continue
+            s_ = [k for k, o in roles.items() if o == start]
+            r_ = [k for k, o in roles.items() if o == rel]
+            if not (len(got.symbols()) == 2 and len(s_) == 1 and len(r_) == 1):
+                raise AnalysisError(f'{cons}: `{pf.nsrc(v)}` = {got}: start / relative id not recognised among {roles}')
+            ctx.check(got.coef[s_[0]] == 1 and got.coef[r_[0]] == 1 and got.const == -1, 'R6', cons,
+                      f'`{pf.nsrc(v)}` = {got} is not start + relative - 1: client and server would disagree on the absolute id', mod.path, getattr(v, 'lineno', fn.lineno))
+        if n == 0:
+            raise AnalysisError(f'{mod.rel}::{qual}::{role}: no arithmetic definition found')
 
-    specs = [
-        (cm, 'Job._submit', 'self._job_id', {'in_update_start_job_id': 1, 'self._job_id': 1}),
-        (cm, 'JobGroup._submit', 'self._job_group_id', {'in_update_start_job_group_id': 1, 'self._job_group_id': 1}),
-        (mi, '_create_jobs', 'job_id', {"spec['job_id']": 1, 'update_start_job_id': 1}),
-        (mi, '_create_jobs', 'job_group_id', {'update_start_job_group_id': 1, 'in_update_job_group_id': 1}),
-        (m, '_create_job_groups.insert', 'job_group_id', {'start_job_group_id': 1, "spec['job_group_id']": 1}),
-        (m, '_create_job_groups.insert', 'parent_job_group_id', {'start_job_group_id': 1, "spec['in_update_parent_id']": 1}),
-    ]
-    for mod, qual, target, coef in specs:
-        v = assign_value(mod, qual, target)
-        got = lf.lin(v)
-        ctx.check(got == lf.Lin(coef, -1), 'R6', f'{mod.rel}::{qual}::{target}', f'`{target} = {pf.nsrc(v)}` is not start + relative - 1: client and server would disagree on the absolute id', mod.path, v.lineno)
-    # in-update parents: comprehension element
+    # ---- client: the object's own id attribute is rebased by the method's parameter ---------------------------------------------------------
+    for cls, attr in (('Job', '_job_id'), ('JobGroup', '_job_group_id')):
+        fn = cm.func(f'{cls}._submit')
+        vals = [n.value for n in ast.walk(fn) if isinstance(n, ast.Assign) and len(n.targets) == 1 and pf.nsrc(n.targets[0]) == f'self.{attr}'
+                and any(pf.nsrc(x) == f'self.{attr}' for x in ast.walk(n.value))]
+        check(cm, fn, f'{cls}._submit', f'self.{attr}', vals, ('param', 0), ('attr', attr), None)
+
+    # ---- server: what is stored in jobs.job_id / jobs.job_group_id --------------------------------------------------------------------------------
+    ids.resolve_module_sql(m)
     fn = mi.func('_create_jobs')
-    comp = [n for n in pf.walk_shallow(fn) if isinstance(n, ast.ListComp) and 'in_update_parent_ids' in pf.nsrc(n.generators[0].iter)]
-    ctx.need(len(comp) == 1, '_create_jobs: in-update parent comprehension not found')
-    tv = pf.nsrc(comp[0].generators[0].target)
-    ctx.check(lf.lin(comp[0].elt) == lf.Lin({'update_start_job_id': 1, tv: 1}, -1), 'R6', f'{FE}::_create_jobs::in-update parent id', f'`{pf.nsrc(comp[0].elt)}` is not start + relative - 1', m.path, comp[0].lineno)
+    ins = [(e, st) for e in sf.embedded_in(m) if e.qual.startswith('_create_jobs') for st in e.stmts() if st.kind == 'insert' and isinstance(st.table, str) and st.table.lower() == 'jobs']
+    ctx.need(len(ins) == 1 and len(ins[0][0].call.args) >= 2 and isinstance(ins[0][0].call.args[1], ast.Name), f'{FE}::_create_jobs: INSERT INTO jobs / its argument list not found')
+    colmap, _dup, _uv = sr.insert_colmap(ins[0][1])
+    params = sr.params_in_order(ins[0][1])
+    lst = ins[0][0].call.args[1].id
+    tups = [c.args[0] for c in ast.walk(fn) if isinstance(c, ast.Call) and isinstance(c.func, ast.Attribute) and c.func.attr == 'append' and isinstance(c.func.value, ast.Name)
+            and c.func.value.id == lst and len(c.args) == 1 and isinstance(c.args[0], ast.Tuple)]
+    ctx.need(len(tups) == 1 and len(tups[0].elts) == len(params), f'{FE}::_create_jobs: the tuple appended to `{lst}` not found')
+    defs = pf.assignments(fn)
+
+    def stored(colname: str) -> List[ast.AST]:
+        ex = colmap.get(colname)
+        ctx.need(ex is not None and ex.kind == 'param', f'{FE}::_create_jobs: column {colname} of INSERT INTO jobs is not a parameter')
+        el = tups[0].elts[[i for i, p_ in enumerate(params) if p_ is ex][0]]
+        if isinstance(el, ast.Name):
+            return [v for v in defs.get(el.id, []) if isinstance(v, ast.expr)]
+        return [el]
+    check(mi, fn, '_create_jobs', 'job_id', stored('job_id'), ('key', 'start_job_id'), ('key', 'job_id'), ('key', 'start_job_group_id'))
+    check(mi, fn, '_create_jobs', 'job_group_id', stored('job_group_id'), ('key', 'start_job_group_id'), ('key', 'in_update_job_group_id'), ('key', 'start_job_id'))
+    # in-update parents: the element of the comprehension over the submitted in-update parent ids
+    comps = []
+    for n in pf.walk_shallow(fn):
+        if isinstance(n, (ast.ListComp, ast.GeneratorExp)) and len(n.generators) == 1 and isinstance(n.generators[0].target, ast.Name):
+            if cf.origin(fn, n.generators[0].iter) == ('key', 'in_update_parent_ids'):
+                comps.append(n)
+    ctx.need(len(comps) == 1, f'{FE}::_create_jobs: comprehension over the in-update parent ids not found (found {len(comps)})')
+    tv = comps[0].generators[0].target.id
+    check(mi, fn, '_create_jobs', 'in-update parent id', [comps[0].elt], ('key', 'start_job_id'), ('elem', ('key', 'in_update_parent_ids')), ('key', 'start_job_group_id'),
+          comp_iters={tv: comps[0].generators[0].iter})
+
+    # ---- server: job groups ------------------------------------------------------------------------------------------------------------------------
+    fn = m.func('_create_job_groups.insert')
+    helper = m.func('_create_job_group')
+    calls = [c for c in ast.walk(fn) if isinstance(c, ast.Call) and pf.dotted(c.func) == '_create_job_group']
+    ctx.need(len(calls) == 1, f'{FE}::_create_job_groups.insert: call of _create_job_group not found')
+    b = _bound_args(helper, calls[0])
+    defs = pf.assignments(fn)
+    for pname, relkey in (('job_group_id', 'job_group_id'), ('parent_job_group_id', 'in_update_parent_id')):
+        ctx.need(pname in b, f'{FE}::_create_job_groups.insert: argument {pname} of _create_job_group not found')
+        v = b[pname]
+        vals = [x for x in defs.get(v.id, []) if isinstance(x, ast.expr)] if isinstance(v, ast.Name) else [v]
+        check(m, fn, '_create_job_groups.insert', pname, vals, ('key', 'start_job_group_id'), ('key', relkey), ('key', 'start_job_id'))
 
 
 def _self_calls(fn: pf.FuncDef, names) -> List[ast.Call]:
@@ -308,6 +438,88 @@ def r7(ctx: Ctx) -> None:
             cur = par.get(cur)
         return False
 
+    # ---- deferred evaluation: lambdas / nested defs that hold a token draw (directly or through a drawing method) -------------------------------
+    drawing0 = {p[0] for p in prods if tf.classify(tf.methods[p[0]], p[1])[0] == 'fresh'}
+    changed = True
+    while changed:
+        changed = False
+        for name, fn in tf.methods.items():
+            if name not in drawing0 and _self_calls(fn, drawing0):
+                drawing0.add(name)
+                changed = True
+    multi = tf.multi_params()
+
+    def anchor_of(fn: pf.FuncDef, node: ast.AST) -> Optional[ast.Call]:
+        """the call in fn (outside any lambda / nested def) that receives the outermost callable enclosing node, when that is its only use."""
+        regs = tf.regions_of(fn, node)
+        if not regs:
+            return None
+        cur: Optional[ast.Call] = None
+        for reg in regs:
+            uses = tf.region_uses(fn, reg)
+            if len(uses) != 1 or uses[0][0] != 'arg' or uses[0][1] is None:
+                return None
+            cur = uses[0][1]
+        return cur if cur is not None and not tf.regions_of(fn, cur) else None
+
+    def draws_in(region: ast.AST) -> List[str]:
+        out = []
+        for c in ast.walk(region):
+            if isinstance(c, ast.Call):
+                if isinstance(c.func, ast.Attribute) and isinstance(c.func.value, ast.Name) and c.func.value.id == 'self' and c.func.attr in drawing0:
+                    out.append(f'self.{c.func.attr}()')
+                elif pf.dotted(c.func) in cf.FRESH_GENERATORS:
+                    out.append(f'{pf.dotted(c.func)}()')
+        return out
+
+    deferred: Dict[int, Tuple[str, str]] = {}     # id(region) -> ('once' | 'multi' | 'unknown', explanation)
+    n_regions = 0
+    for mname, fn in tf.methods.items():
+        for reg in ast.walk(fn):
+            if reg is fn or not isinstance(reg, (ast.Lambda, ast.FunctionDef, ast.AsyncFunctionDef)) or tf.regions_of(fn, reg):
+                continue                       # outermost regions only (an inner one runs when the outer one does)
+            dr = draws_in(reg)
+            if not dr:
+                continue
+            n_regions += 1
+            what = 'lambda' if isinstance(reg, ast.Lambda) else f'nested def {reg.name}'  # type: ignore[union-attr]
+            cons = f'{CL}::Batch.{mname}::{what} evaluating {dr[0]}'
+            uses = tf.region_uses(fn, reg)
+            verdict, why = 'once', ''
+            if not uses:
+                verdict, why = 'once', 'never used'
+            for how, call, arg in uses:
+                if how == 'called':
+                    if tf.in_loop(call, fn):
+                        verdict, why = 'unknown', f'called inside a loop (line {call.lineno})'
+                elif how == 'arg':
+                    kind, name, g = tf.callee_of(call)
+                    if kind == 'retry':
+                        verdict, why = 'multi', f'handed to the retry helper {name} (line {call.lineno})'
+                        break
+                    if g is None:
+                        verdict, why = 'unknown', f'handed to `{name}` (line {call.lineno}), which is not analysed'
+                        continue
+                    q = tf.param_for(kind, g, call, arg)
+                    if q is None:
+                        verdict, why = 'unknown', f'handed to {name} (line {call.lineno}); receiving parameter not found'
+                    elif q in multi[(kind, name)]:
+                        verdict, why = 'multi', f'handed to {"self." if kind == "method" else ""}{name}({q}=..) (line {call.lineno}), which may invoke `{q}` more than once (retry / loop)'
+                        break
+                    elif tf.in_loop(call, fn):
+                        verdict, why = 'unknown', f'handed to {name} inside a loop (line {call.lineno})'
+                else:
+                    verdict, why = 'unknown', 'stored / returned instead of being called'
+            deferred[id(reg)] = (verdict, why)
+            if verdict == 'multi':
+                ctx.bad('R7', cons + ' re-invoked by a retry', f'the {what} in Batch.{mname} evaluates {", ".join(sorted(set(dr)))} - a fresh token on every invocation - and is {why}: after a lost response '
+                        '(connection reset while the body is read) the exchange is repeated with ANOTHER token, the server does not find the update the first attempt created (look-up by (batch_id, token)) '
+                        'and reserves a second id range; the first update stays open for ever and its ids are burnt', cm.path, getattr(reg, 'lineno', fn.lineno))
+            elif verdict == 'unknown':
+                declined.append(f'{cons}: {why}')
+            else:
+                ctx.ok('R7', cons + ' invoked once', why, nontrivial=False)
+
     # ---- the spec sent by each token-bearing request is produced by exactly one direct producer call in the requesting method --------------
     for s_ in tf.sites:
         if s_.kind == 'commit':
@@ -320,6 +532,17 @@ def r7(ctx: Ctx) -> None:
         if len(pcs) != 1 or other or in_loop(pcs[0], fn) or in_loop(s_.call, fn):
             declined.append(f'{cons}: the request does not take its spec from exactly one straight-line call of self.{pname}() (calls: {len(pcs)}, other producers: {other})')
             continue
+        # a request written inside a lambda / nested def is sent where that callable is invoked: it must be handed, once, to a call of this method
+        if tf.regions_of(fn, s_.call) and anchor_of(fn, s_.call) is None:
+            declined.append(f'{cons}: the request is written inside a lambda / nested def whose invocation is not a single hand-over to a call in {s_.method}')
+            continue
+        if tf.regions_of(fn, pcs[0]):
+            v_ = deferred.get(id(tf.regions_of(fn, pcs[0])[-1]))
+            if v_ is None or v_[0] == 'unknown':
+                declined.append(f'{cons}: self.{pname}() is evaluated inside a lambda / nested def; how often it runs per request is not decided' + (f' ({v_[1]})' if v_ else ''))
+                continue
+            if v_[0] == 'multi':
+                continue                       # reported below (the spec, and with it the token, is rebuilt by every invocation)
         ctx.ok('R7', cons, f'self.{pname}() called once per request')
 
     # ---- update token -----------------------------------------------------------------------------------------------------------------------
@@ -338,6 +561,8 @@ def r7(ctx: Ctx) -> None:
     elif kind == 'deterministic':
         ctx.bad('R7', cons + ' fresh per update', f'the update token is `{info}`: it contains no random draw, so two different updates with the same inputs (e.g. two updates with the same number of jobs) '
                 'carry the same token; the server then answers the second one with the first update\'s update_id / start ids and its jobs are never created', cm.path, tv.lineno)
+    elif kind == 'attr' and any(tf.regions_of(tf.methods[x.method], x.call) for x in tf.sites):
+        declined.append(f'{cons}: the token is kept on the object and a request is written inside a lambda / nested def: the typestate pass does not follow deferred calls')
     elif kind == 'attr':
         attr = info
         viol, states, decl = tf.run_typestate(attr, 'submit', {'update-fast': 'D', 'update-create': 'O', 'commit': 'C'})
@@ -418,7 +643,7 @@ def r7(ctx: Ctx) -> None:
                     continue
                 fn = tf.methods[s_.method]
                 g = pf.cfg(fn)
-                sn = g.node_of(s_.call)
+                sn = g.node_of(anchor_of(fn, s_.call) or s_.call)
                 ctx.need(len(sn) == 1, f'Batch.{s_.method}: request node not found')
                 dom = g.dominated_by(sn[0], lambda n: any(isinstance(c.func, ast.Attribute) and c.func.attr == '_raise_if_created' and pf.nsrc(c.func.value) == 'self' for c in pf.node_calls(n)))
                 sets_id = lambda n: isinstance(n.ast, ast.Assign) and any(pf.nsrc(t) == 'self._id' for t in n.ast.targets)  # noqa: E731
@@ -763,6 +988,8 @@ def run(ctx: Ctx) -> None:
     ctx.rule('R8', 'token and id wiring: handlers pass the validated spec token, look-ups bind it unchanged, replay answer = first answer, ids unpacked / published / read under the same names', 29)
     ctx.rule('R7', 'client tokens name one logical request: update token fresh per update (or cleared on every completing path), not re-drawn by retries; batch token fixed, creation requests once per object', 9)
     m = pf.load(FE)
+    from engines import c08ids as _ci
+    ctx.unit('SQL texts resolved through module-level constants', _ci.resolve_module_sql(pf.load('batch/batch/front_end/front_end.py')))
     # the rules are independent: a shape one of them cannot analyse must not hide the verdicts of the others
     declined: List[str] = []
     for rule in (lambda: r1(ctx, m), lambda: r2(ctx, m), lambda: r3(ctx, m), lambda: r4(ctx), lambda: r5(ctx, m), lambda: r6(ctx, m), lambda: r8(ctx, m), lambda: r7(ctx)):
